@@ -30,6 +30,31 @@ def _natural_sorted(x):
         return sorted(x, key=repr)
 
 
+SET_ORDER = {"mode": "desc"}
+
+
+def _set_order(x):
+    """the order in which a folded program sees the elements of a set.  Python promises none; a program whose result depends on it is wrong for some
+    inputs (small integers happen to iterate in increasing order until the table wraps: {1, 8} iterates 8, 1).  The folder therefore hands the elements
+    over in *decreasing* order - the opposite of the order that makes such code look right on small examples; code that sorts first is unaffected."""
+    x = _natural_sorted(x)
+    return x[::-1] if SET_ORDER["mode"] == "desc" else x
+
+
+_NO = object()
+
+
+class _PyCallable:
+    """a callable built from trusted standard-library parts (operator.itemgetter)"""
+    _sa_model = True
+
+    def __init__(self, f):
+        self.f = f
+
+    def __call__(self, *a, **k):
+        return self.f(*a, **k)
+
+
 class Undecidable(Exception):
     pass
 
@@ -273,7 +298,7 @@ class Folder:
         if isinstance(s, ast.For):
             it = self.expr(s.iter)
             if isinstance(it, (set, frozenset)):
-                it = sorted(it, key=repr)
+                it = _set_order(it)
             if isinstance(it, dict):
                 it = list(it.keys())
             if isinstance(it, (type({}.keys()), IntArray)) or (getattr(it, "_sa_model", False) and hasattr(it, "__iter__")):
@@ -496,7 +521,7 @@ class Folder:
                 return sp.re(base) if e.attr == "real" else sp.im(base)
             if isinstance(base, (sp.MatrixBase,)) and e.attr in ("T", "H", "shape", "rows", "cols"):
                 return getattr(base, e.attr)
-            if isinstance(base, (_np.ndarray, _np.generic)) and e.attr in ("shape", "T", "real", "imag", "size", "ndim"):
+            if isinstance(base, (_np.ndarray, _np.generic)) and e.attr in ("shape", "T", "real", "imag", "size", "ndim", "dtype"):
                 return getattr(base, e.attr)          # concrete numpy value (allocated by the folded code with literal extents)
             if isinstance(base, sp.Basic) and e.attr in ("is_zero", "is_real", "is_number"):
                 return getattr(base, e.attr)
@@ -602,7 +627,7 @@ class Folder:
             g = e.generators[i]
             it = self.expr(g.iter)
             if isinstance(it, (set, frozenset)):
-                it = sorted(it, key=repr)
+                it = _set_order(it)
             if isinstance(it, dict):
                 it = list(it.keys())
             if self._rec_method(it, "__iter__") is not None:
@@ -630,6 +655,88 @@ class Folder:
             return FuncVal(cv.methods[name], closure=None, bound_self=obj, home=(cv.method_home or {}).get(name, cv.home))
         return None
 
+    _NP_FUNCS = frozenset("""array asarray zeros ones empty identity eye concatenate hstack vstack column_stack stack prod sum any all logical_not logical_or
+        logical_and logical_xor where unique delete abs absolute real imag conj conjugate transpose dot matmul kron mod arange linspace argsort sort count_nonzero isclose
+        allclose array_equal round around floor ceil sqrt exp log2 log max min amax amin argmax argmin cumsum diag trace einsum tensordot reshape ravel flip roll outer
+        zeros_like ones_like copy nonzero isin append insert squeeze expand_dims tile repeat full triu tril sign bitwise_xor bitwise_and bitwise_or left_shift right_shift
+        shape ndim size power multiply add subtract divide floor_divide equal not_equal greater less ix_ meshgrid flatnonzero searchsorted diff cumprod mean""".split())
+    _NP_METHODS = frozenset("""astype copy sum prod max min any all reshape transpose flatten ravel dot tolist conj conjugate nonzero argsort item squeeze round mean
+        argmax argmin cumsum trace diagonal swapaxes take repeat""".split())
+    _NP_DTYPES = {"complex64": _np.complex64, "complex128": _np.complex128, "complex": _np.complex128, "complex_": _np.complex128, "float64": _np.float64,
+                  "float32": _np.float32, "float": _np.float64, "float_": _np.float64, "double": _np.float64, "int": _np.int64, "int64": _np.int64, "int32": _np.int32,
+                  "int16": _np.int16, "int8": _np.int8, "uint8": _np.uint8, "bool": _np.bool_, "bool_": _np.bool_, "str": _np.str_, "object": object}
+
+    def _np_concrete(self, v, depth=0):
+        """-> (is the value made of concrete numbers / arrays only?, the value with dtype names replaced by numpy dtypes)"""
+        if isinstance(v, Opaque):
+            key = v.text.split(":")[-1].split(".")[-1]
+            if not v.args and not v.kwargs and (v.text.startswith("type:") or v.text.startswith(("np.", "numpy."))) and key in self._NP_DTYPES:
+                return True, self._NP_DTYPES[key]
+            return False, v
+        if isinstance(v, (Rec, FuncVal, ClassVal)) or getattr(v, "_sa_model", False):
+            return False, v
+        if isinstance(v, sp.Basic):
+            if v.free_symbols or not v.is_number:
+                return False, v
+            return True, (int(v) if v.is_Integer else (float(v) if v.is_real else complex(v)))
+        if isinstance(v, IntArray):
+            return True, _np.array(list(v.v))
+        if isinstance(v, (list, tuple)) and depth < 6:
+            out = []
+            for x in v:
+                ok, y = self._np_concrete(x, depth + 1)
+                if not ok:
+                    return False, v
+                out.append(y)
+            return True, type(v)(out) if isinstance(v, tuple) else out
+        if isinstance(v, dict):
+            return False, v
+        return True, v
+
+    def _numpy_call(self, fn, args, kwargs, e):
+        """numpy functions and array methods on concrete operands: evaluated by numpy itself (trusted primitives, like the Python builtins)"""
+        parts = fn.split(".")
+        target = None
+        if parts[0] in ("np", "numpy") and len(parts) == 2 and not hasattr(_np, parts[1]) and getattr(self, "real_arrays", False) and \
+                isinstance(self.env.get(parts[0], self.resolver(parts[0]) if self.resolver else None), Opaque):
+            raise Raised("AttributeError", e)          # the installed numpy has no such function (np.product, np.in1d, ... were removed in NumPy 2)
+        if parts[0] in ("np", "numpy") and len(parts) >= 2 and parts[1] in self._NP_FUNCS and isinstance(self.env.get(parts[0], self.resolver(parts[0]) if self.resolver else None), Opaque):
+            target = getattr(_np, parts[1], None)
+            for extra in parts[2:]:
+                if extra not in ("reduce", "outer", "accumulate"):
+                    return _NO
+                target = getattr(target, extra, None)
+            recv = None
+        elif isinstance(e.func, ast.Attribute) and e.func.attr in self._NP_METHODS:
+            try:
+                recv = self.expr(e.func.value)
+            except (Undecidable, Raised):
+                return _NO
+            if not isinstance(recv, (_np.ndarray, _np.generic)):
+                return _NO
+            target = getattr(recv, e.func.attr)
+        if target is None:
+            return _NO
+        cargs = []
+        for a in args:
+            ok, v = self._np_concrete(a)
+            if not ok:
+                return _NO
+            cargs.append(v)
+        ckw = {}
+        for k, a in kwargs.items():
+            ok, v = self._np_concrete(a)
+            if not ok:
+                return _NO
+            ckw[k] = v
+        import warnings as _w
+        try:
+            with _w.catch_warnings():
+                _w.simplefilter("ignore")
+                return target(*cargs, **ckw)
+        except (ValueError, IndexError, TypeError, ZeroDivisionError) as ex:
+            raise Raised(type(ex).__name__, e)
+
     def binop(self, op, a, b, node):
         names = self._DUNDER.get(type(op))
         if names:
@@ -639,6 +746,20 @@ class Folder:
             m = self._rec_method(b, names[1])
             if m is not None:
                 return self.call_funcval(m, [a], {})
+        if isinstance(a, (_np.ndarray, _np.generic)) or isinstance(b, (_np.ndarray, _np.generic)):
+            import operator as _op
+            py = {ast.Add: _op.add, ast.Sub: _op.sub, ast.Mult: _op.mul, ast.Div: _op.truediv, ast.Mod: _op.mod, ast.Pow: _op.pow, ast.FloorDiv: _op.floordiv,
+                  ast.BitOr: _op.or_, ast.BitAnd: _op.and_, ast.BitXor: _op.xor, ast.LShift: _op.lshift, ast.RShift: _op.rshift, ast.MatMult: _op.matmul}.get(type(op))
+            oka, ca = self._np_concrete(a)
+            okb, cb = self._np_concrete(b)
+            if py is not None and oka and okb:
+                import warnings as _w
+                try:
+                    with _w.catch_warnings():
+                        _w.simplefilter("ignore")
+                        return py(ca, cb)                          # array arithmetic: numpy's own element-wise / broadcasting rules
+                except (ValueError, TypeError, IndexError) as ex:
+                    raise Raised(type(ex).__name__, node)
         if isinstance(a, complex) and isinstance(b, sp.Basic):
             a = sp.nsimplify(a.real) + sp.I * sp.nsimplify(a.imag)
         if isinstance(b, complex) and isinstance(a, sp.Basic):
@@ -729,6 +850,7 @@ class Folder:
                      resolver_factory=self.resolver_factory)
         sub.ctors = self.ctors
         sub.generic_symbols = getattr(self, "generic_symbols", False)
+        sub.real_arrays = getattr(self, "real_arrays", False)
         fa = fv.node.args
         names = [a.arg for a in fa.posonlyargs + fa.args]
         args = list(args)
@@ -859,7 +981,7 @@ class Folder:
         if fn in ("math.log2", "np.log2", "math.log", "math.log10") and len(args) == 1 and isinstance(args[0], (int, float)) and not isinstance(args[0], bool) and args[0] > 0:
             import math as _m
             return getattr(_m, fn.split(".")[1])(args[0])
-        if fn in ("np.ones", "np.zeros", "numpy.ones", "numpy.zeros") and len(args) == 1 and isinstance(args[0], int) and not isinstance(args[0], bool) and \
+        if not getattr(self, "real_arrays", False) and fn in ("np.ones", "np.zeros", "numpy.ones", "numpy.zeros") and len(args) == 1 and isinstance(args[0], int) and not isinstance(args[0], bool) and \
                 set(kwargs) <= {"dtype"}:
             if kwargs.get("dtype") == Opaque("type:int"):
                 return IntArray([1 if fn.endswith("ones") else 0] * args[0])
@@ -878,7 +1000,7 @@ class Folder:
             else:
                 raise Undecidable(f"{fn} with dtype {dt!r}")
             return (_np.ones if fn.endswith("ones") else _np.zeros)(args[0], dtype=npdt)
-        if fn in ("np.linspace", "numpy.linspace") and len(args) == 3 and all(isinstance(a, int) and not isinstance(a, bool) for a in args) and \
+        if not getattr(self, "real_arrays", False) and fn in ("np.linspace", "numpy.linspace") and len(args) == 3 and all(isinstance(a, int) and not isinstance(a, bool) for a in args) and \
                 set(kwargs) == {"dtype"} and kwargs["dtype"] == Opaque("type:int") and args[2] >= 1:
             lo, hi, cnt = args
             if cnt == 1:
@@ -886,12 +1008,12 @@ class Folder:
             if (hi - lo) % (cnt - 1) != 0:
                 raise Undecidable("np.linspace with a non-integer step")
             return IntArray([lo + i * (hi - lo) // (cnt - 1) for i in range(cnt)])
-        if fn in ("np.arange", "numpy.arange") and 1 <= len(args) <= 3 and all(isinstance(a, int) and not isinstance(a, bool) for a in args) and set(kwargs) <= {"dtype"}:
+        if not getattr(self, "real_arrays", False) and fn in ("np.arange", "numpy.arange") and 1 <= len(args) <= 3 and all(isinstance(a, int) and not isinstance(a, bool) for a in args) and set(kwargs) <= {"dtype"}:
             return IntArray(range(*args))
         if fn in ("np.hstack", "np.vstack", "np.column_stack", "numpy.hstack", "numpy.vstack", "numpy.column_stack") and len(args) == 1 and not kwargs and \
                 isinstance(args[0], (list, tuple)) and args[0] and all(isinstance(x, _np.ndarray) for x in args[0]):
             return getattr(_np, fn.split(".")[1])(list(args[0]))           # concrete arrays supplied by the checker: the numpy definition itself
-        if fn in ("np.concatenate", "numpy.concatenate") and len(args) == 1 and isinstance(args[0], (list, tuple)) and not kwargs:
+        if not getattr(self, "real_arrays", False) and fn in ("np.concatenate", "numpy.concatenate") and len(args) == 1 and isinstance(args[0], (list, tuple)) and not kwargs:
             if all(isinstance(x, IntArray) for x in args[0]):
                 return IntArray([y for x in args[0] for y in x.v])
             if all(isinstance(x, list) for x in args[0]):
@@ -912,14 +1034,14 @@ class Folder:
                 all(isinstance(a, (list, tuple, range, str, frozenset, set, IntArray)) or isinstance(a, int) for a in args) and set(kwargs) <= {"repeat"}:
             import itertools as _it
             f = getattr(_it, fn.split(".")[-1])
-            seqs = [sorted(a, key=repr) if isinstance(a, (set, frozenset)) else a for a in args]
+            seqs = [_set_order(a) if isinstance(a, (set, frozenset)) else a for a in args]
             try:
                 return [tuple(x) for x in f(*seqs, **kwargs)]
             except TypeError as ex:
                 raise Undecidable(f"{fn}: {ex}")
-        if fn in ("np.sum", "numpy.sum") and len(args) == 1 and isinstance(args[0], (list, tuple, IntArray)) and not kwargs:
+        if not getattr(self, "real_arrays", False) and fn in ("np.sum", "numpy.sum") and len(args) == 1 and isinstance(args[0], (list, tuple, IntArray)) and not kwargs:
             return sum(list(args[0]))
-        if fn in ("np.empty", "numpy.empty") and len(args) == 1 and isinstance(args[0], int) and not isinstance(args[0], bool) and set(kwargs) <= {"dtype"}:
+        if not getattr(self, "real_arrays", False) and fn in ("np.empty", "numpy.empty") and len(args) == 1 and isinstance(args[0], int) and not isinstance(args[0], bool) and set(kwargs) <= {"dtype"}:
             return [None] * args[0]                                      # uninitialised one-dimensional array
         if fn == "format" and len(args) == 2 and isinstance(args[0], (int, float)) and isinstance(args[1], str) and not kwargs:
             try:
@@ -972,8 +1094,15 @@ class Folder:
                 return (max if fn == "max" else min)(items)
             except TypeError as ex:
                 raise Undecidable(f"{fn}: {ex}")
+        if fn in ("itemgetter", "operator.itemgetter") and args and not kwargs:
+            ok_, idxs = self._np_concrete(list(args))
+            if ok_:
+                import operator as _op
+                return _PyCallable(_op.itemgetter(*[int(i) for i in idxs]))
         _k = kwargs.get("key")
         _pykey = {"type:int": int, "type:float": float, "type:str": str, "type:tuple": tuple}.get(_k.text) if isinstance(_k, Opaque) else None
+        if isinstance(_k, _PyCallable):
+            _pykey = _k
         if fn in ("sorted", "max", "min") and len(args) == 1 and set(kwargs) <= {"key", "reverse"} and (isinstance(_k, FuncVal) or _pykey is not None):
             items = list(args[0].keys()) if isinstance(args[0], dict) else list(args[0])
             try:
@@ -993,6 +1122,12 @@ class Folder:
             return [y for x in args[0] for y in x]
         if fn in ("itertools.chain", "chain") and not kwargs and all(isinstance(x, (list, tuple, range)) for x in args):
             return [y for x in args for y in x]
+        if fn == "divmod" and len(args) == 2 and not kwargs and all(isinstance(a, (int, float)) and not isinstance(a, bool) for a in args):
+            if args[1] == 0:
+                raise Raised("ZeroDivisionError", e)
+            return divmod(*args)
+        if fn == "super":
+            return Opaque("super()")          # calls through super() reach base-class code that is not folded: they return opaque values and change nothing
         if fn == "bool" and len(args) <= 1 and not kwargs:
             return self.truth(args[0], e) if args else False
         if fn in ("dict", "list", "set", "tuple", "sorted", "len", "str", "frozenset", "reversed", "range", "abs", "int", "float", "max", "min", "sum", "zip", "enumerate") and not kwargs:
@@ -1090,6 +1225,19 @@ class Folder:
             if isinstance(obj, list) and m == "extend" and len(args) == 1:
                 obj.extend(args[0])
                 return None
+            if isinstance(obj, ClassVal) and m in obj.methods:
+                node = obj.methods[m]
+                decos = {ast.unparse(d) for d in getattr(node, "decorator_list", [])}
+                home = (obj.method_home or {}).get(m, obj.home)
+                if "staticmethod" in decos:
+                    return self.call_funcval(FuncVal(node, closure=None, home=home), args, kwargs)
+                if "classmethod" in decos:
+                    return self.call_funcval(FuncVal(node, closure=None, home=home), [obj] + list(args), kwargs)
+                return self.call_funcval(FuncVal(node, closure=None, home=home), args, kwargs)      # Class.method(instance, ...)
+            if isinstance(obj, (Opaque, _np.ndarray, _np.generic)):
+                r = self._numpy_call(fn, args, kwargs, e)
+                if r is not _NO:
+                    return r
             if isinstance(obj, Opaque):
                 return Opaque(f"{obj.text}.{m}", tuple(args), tuple(sorted(kwargs.items(), key=lambda kv: kv[0])))
             if isinstance(obj, Rec) and (obj.cls, m) in self.ctors:
@@ -1126,6 +1274,9 @@ class Folder:
                     raise Raised(type(ex).__name__, e)
                 except TypeError as ex:
                     raise Undecidable(f"list.{m}: {ex}")
+        r = self._numpy_call(fn, args, kwargs, e)
+        if r is not _NO:
+            return r
         fv = None
         try:
             fv = self.expr(e.func)
@@ -1137,4 +1288,6 @@ class Folder:
             return self.call_funcval(fv, args, kwargs)
         if isinstance(fv, Opaque):
             return Opaque(fv.text, tuple(args), tuple(sorted(kwargs.items(), key=lambda kv: kv[0])))
+        if getattr(fv, "_sa_model", False) and callable(fv):
+            return fv(*args, **kwargs)                   # a callable stand-in supplied by the checker (e.g. a class recorded on instantiation)
         raise Undecidable(f"call {fn}")
